@@ -44,6 +44,16 @@ def queries(tier):
             Q('h_object', {nm['parseValue']: 'stub_parseValue', nm['UnEscape']: 'stub_unescape'})
             Q('h_unescape', {})
             Q('h_number', {nm['powN']: 'stub_pow', nm['powP']: 'stub_pow'})
+        if ch == 'char':
+            # steering twins (see C07): callee results restricted to real tokens (one digit / the key k") so that a counterexample lifts to a real document
+            for L in ((5,) if tier == 'quick' else (4, 5, 6, 7)):
+                b = {'TrimLeft|parseArray|parseObject|UnEscape|Write|stringToNumber|parseExponent|vf_buf.*': L + 1, 'HexStringToNumber': 5,
+                     'parseValue': 6, 'Insert': 4, 'Array|HArray|Value|ShapeChild|any_value|stub_.*': 4}
+                d = {'L': L, 'CHAR': ch, 'STEER': 1}
+                for entry, stubs, lift in (('h_top', {nm['parseValue']: 'stub_parseValue'}, 'lift_top'), ('h_array', {nm['parseValue']: 'stub_parseValue'}, 'lift_array'),
+                                           ('h_object', {nm['parseValue']: 'stub_parseValue', nm['UnEscape']: 'stub_unescape'}, 'lift_object')):
+                    qs.append(Query('%s/%s/L%d/steer' % (entry, ch, L), 'C05_json.cpp', entry, d, bounds=b, stubs=stubs, cflags=['-Dprotected=public'], timeout=600,
+                                    replay=('C05_lift.cpp', lift)))
         if tier == 'quick' and ch == 'char':
             # a \uXXXX escape needs 6 units: the un-escaper alone is cheap, so the quick tier reaches the surrogate look-ahead too
             for L in (6, 7):
